@@ -64,6 +64,10 @@ fn forms() -> Vec<Form> {
     Form { name: "import-source", place: Place::Body, media: CODE, literal: true, build: |l, _, n| (format!("import source s{n} from {l};\n"), vec![("static:importSource".into(), None, false)]) },
     Form { name: "dynamic-import", place: Place::Body, media: CODE, literal: true, build: |l, _, n| (format!("const di{n} = await import({l});\n"), vec![("dynamic:import".into(), None, false)]) },
     Form { name: "dynamic-import-with-attribute", place: Place::Body, media: CODE, literal: true, build: |l, _, n| (format!("const dj{n} = await import({l}, {{ with: {{ type: \"json\" }} }});\n"), vec![("dynamic:import".into(), Some("json".into()), false)]) },
+    // template-literal arguments: reported with their string / expression parts and the range of the whole literal
+    Form { name: "dynamic-import-template", place: Place::Body, media: CODE, literal: true, build: |_, _, n| (format!("const tv{n} = \"a\";\nconst dt{n} = await import(`./tdir/${{tv{n}}}/x.ts`);\n"), vec![("dynamic:import:tpl".into(), None, false)]) },
+    Form { name: "dynamic-import-template-non-ascii", place: Place::Body, media: CODE, literal: true, build: |_, _, n| (format!("const tw{n} = \"a\";\nconst du{n} = await import(`./t\u{e9}\u{1F600}/${{tw{n}}}`, {{ with: {{ type: \"json\" }} }});\n"), vec![("dynamic:import:tpl".into(), Some("json".into()), false)]) },
+    Form { name: "dynamic-import-template-expr-only", place: Place::Body, media: CODE, literal: true, build: |_, _, n| (format!("const tx{n} = \"./a.ts\";\nconst dv{n} = await import(`${{tx{n}}}`);\n"), vec![("dynamic:import:tpl".into(), None, false)]) },
     Form { name: "nested-dynamic-import", place: Place::Body, media: CODE, literal: true, build: |l, _, n| (format!("function f{n}() {{ return import({l}); }}\n"), vec![("dynamic:import".into(), None, false)]) },
     Form { name: "import-type-in-namespace", place: Place::Body, media: TSX, literal: true, build: |l, _, n| (format!("namespace NS{n} {{ export type I = import({l}).X; }}\n"), vec![("static:importType".into(), None, false)]) },
     Form { name: "dynamic-import-in-namespace", place: Place::Body, media: TSX, literal: true, build: |l, _, n| (format!("namespace ND{n} {{ export const d = import({l}); }}\n"), vec![("dynamic:import".into(), None, false)]) },
@@ -155,7 +159,14 @@ fn collect(info: &ModuleInfo) -> Vec<Reported> {
         let kind = serde_json::to_value(dy.kind).unwrap().as_str().unwrap().to_string();
         let value = match &dy.argument {
           DynamicArgument::String(s) => s.clone(),
-          DynamicArgument::Template(parts) => format!("<template:{}>", parts.len()),
+          DynamicArgument::Template(parts) => parts
+            .iter()
+            .map(|p| match p {
+              deno_graph::analysis::DynamicTemplatePart::String { value } => format!("S({value})"),
+              deno_graph::analysis::DynamicTemplatePart::Expr => "E".to_string(),
+            })
+            .collect::<String>()
+            .replace("S()", ""),
           DynamicArgument::Expr => "<expr>".into(),
         };
         out.push(Reported { cat: format!("dynamic:{kind}"), value, attr: attr_of(&dy.import_attributes), range: dy.argument_range });
@@ -271,6 +282,39 @@ pub fn gen_program(ch: &Ch, max_items: usize) -> GenProgram {
             continue;
           }
           seen_jsx_types = true;
+        }
+        if let Some(cat) = cat.strip_suffix(":tpl") {
+          // the whole template literal, backticks included
+          let a = t.find('`').unwrap();
+          let b = t.rfind('`').unwrap() + 1;
+          let inner = &t[a + 1..b - 1];
+          // own mini parser: S(..) for text, E for `${...}`
+          let mut value = String::new();
+          let mut rest = inner;
+          loop {
+            match rest.find("${") {
+              Some(i) => {
+                if i > 0 || value.is_empty() {
+                  value.push_str(&format!("S({})", &rest[..i]));
+                }
+                value.push('E');
+                let j = rest[i..].find('}').unwrap();
+                rest = &rest[i + j + 1..];
+                if rest.is_empty() {
+                  value.push_str("S()");
+                  break;
+                }
+              }
+              None => {
+                value.push_str(&format!("S({rest})"));
+                break;
+              }
+            }
+          }
+          // empty text parts carry no information; both sides are compared without them
+          let value = value.replace("S()", "");
+          expected.push(Item { cat: cat.to_string(), value, attr, lo: base + a, hi: base + b });
+          continue;
         }
         let (needle, value) = if cat.ends_with(":bare") { (c.value.clone(), c.value.clone()) } else { (c.lit.clone(), c.value.clone()) };
         let lo = base + t.find(&needle).expect("literal present in statement");
@@ -645,7 +689,7 @@ pub fn prop(tier: Tier) -> Prop {
     assumptions: vec![
       "positions are (line, Unicode scalar value index), lines split at LF, relative to the text after a leading BOM - deno_ast's documented unit".into(),
       "only the first @ts-self-types / @jsxImportSource pragma counts; leading forms are placed before the first token, sourceMappingURL last".into(),
-      "`assert { }` attributes, require() in JS, template-literal and non-literal dynamic arguments are outside the generated alphabet (the corpus contains them)".into(),
+      "`assert { }` attributes, require() in JS and non-literal (identifier) dynamic arguments are outside the generated alphabet (the corpus contains them); template-literal arguments are reported as their string / expression parts (empty text parts ignored) with the range of the whole literal - their expansion against a directory listing is not covered".into(),
     ],
     parts,
     termination_property: false,
